@@ -11,13 +11,20 @@ WrapKeys == IF Deep THEN Keys ELSE {31, 32, 35, 41}
 V0(u) == {Leaf(a) : a \in Leafs}
 V0s(u) == {Leaf(a) : a \in SmallLeafs}
 IntLeaf == {Leaf(3)}
+Miss == {Leaf(MISSING)}
 \* containers with at most one element, objects
-V1s(u) == V0(u) \cup Containers(Keys, 1, V0(u)) \cup Objects(V0(u), IntLeaf)
+\* objects include PARTIAL ones (a field is MISSING_VALUE); MISSING occurs nowhere else
+V1s(u) == V0(u) \cup Containers(Keys, 1, V0(u)) \cup Objects(V0(u) \cup Miss, IntLeaf \cup Miss)
+Partials(u) == {ObjV(1, <<Leaf(MISSING)>>), ObjV(2, <<Leaf(3), Leaf(MISSING)>>), ObjV(2, <<Leaf(MISSING), Leaf(3)>>)}
+\* a partial object below a tuple below every kind of container (tuple elements are loaded by a path of their own)
+Nest(S) == {TupleV(<<TupleV(<<x>>)>>) : x \in S} \cup {ListV(<<TupleV(<<Leaf(3), x>>)>>) : x \in S}
+           \cup {DictV(<<31>>, <<TupleV(<<x, Leaf(6)>>)>>) : x \in S} \cup {ObjV(1, <<TupleV(<<x>>)>>) : x \in S}
+           \cup {TupleV(<<ObjV(1, <<x>>)>>) : x \in S}
 \* + pairs over the small leaf set
 V1(u) == V1s(u) \cup Containers(Keys, 2, V0s(u))
 Wrap(S) == {ListV(<<x>>) : x \in S} \cup {TupleV(<<x>>) : x \in S} \cup {ObjV(1, <<x>>) : x \in S}
            \cup {DictV(<<k>>, <<x>>) : k \in WrapKeys, x \in S}
-V2(u) == V1(u) \cup Wrap(IF Deep THEN V1(u) ELSE V1s(u))
+V2(u) == V1(u) \cup Wrap(IF Deep THEN V1(u) ELSE V1s(u)) \cup Nest(Partials(u))
 \* thorough: mixed pairs [x, leaf] / (leaf, x) / {k: x, 31: leaf}, and a third level over small values
 Small(u) == V0s(u) \cup Containers({31, 32, 35, 41}, 1, V0s(u))
 V3(u) == V2(u) \cup Wrap(Wrap(Small(u)))
